@@ -149,6 +149,22 @@ Example c08_example_wakers :
   cond_wakers_ok required_wakers (mkWait "x.f" 1%N "cond-wait" "c" [] ["waker-bare"]) = false.
 Proof. vm_compute. repeat split; reflexivity. Qed.
 
+(* the caller's context reaches every blocking request: in every function with a context
+   parameter, each call of a function that waits for the broker / the flush loop on behalf of an
+   API call is handed that parameter or a context derived from it on every preceding assignment -
+   never a stored stream / connection context, never a mixture *)
+Theorem c08_caller_ctx_alternatives :
+  forallb caller_ctx_ok ctx_args = true /\ blocking_callees_used ctx_args = true.
+Proof. vm_compute. split; reflexivity. Qed.
+Print Assumptions c08_caller_ctx_alternatives.
+
+Example c08_example_caller_ctx :
+  caller_ctx_ok (mkCtxArg "iscp.Downstream.closeWithError" 1%N "wire.ClientConn.SendDownstreamCloseRequest" "ctx" "caller") = true /\
+  caller_ctx_ok (mkCtxArg "iscp.Downstream.closeWithError" 1%N "wire.ClientConn.SendDownstreamCloseRequest" "reqCtx" "mixed") = false /\
+  caller_ctx_ok (mkCtxArg "iscp.Downstream.closeWithError" 1%N "wire.ClientConn.SendDownstreamCloseRequest" "d.ctx" "stored") = false /\
+  (30 <=? List.length (filter (fun a => has (ca_callee a) blocking_callees) ctx_args))%nat = true.
+Proof. vm_compute. repeat split; reflexivity. Qed.
+
 (* no stale rows in the hand-written table *)
 Theorem c08_wait_table_used : table_used wait_protocols waits = true.
 Proof. vm_compute. reflexivity. Qed.
